@@ -1571,6 +1571,9 @@ func (gen *Generator) GeneratePackage(expressions []Sexp) error {
 	gen.Tail = false
 
 	gen.AddInstruction(AddScopeInstr{Name: pkgName})
+	// count the package scope like every other scope the compiler opens,
+	// so that a break, continue or tail call inside the body removes it too.
+	gen.scopes++
 	gen.AddInstruction(PushStackmarkInstr{sym: symPkgName})
 
 	if size > 1 {
@@ -1582,14 +1585,17 @@ func (gen *Generator) GeneratePackage(expressions []Sexp) error {
 		}
 	}
 
-	gen.Tail = oldtail
+	// the last body form is not in tail position either: the scope
+	// transfer below still has to run after it.
 	err := gen.Generate(expressions[size-1])
 	if err != nil {
 		return err
 	}
+	gen.Tail = oldtail
 	gen.AddInstruction(PopUntilStackmarkInstr{sym: symPkgName})
 	gen.AddInstruction(PopInstr(0)) // remove the stackmark itself now
 	gen.AddInstruction(PopScopeTransferToDataStackInstr{PackageName: pkgName})
+	gen.scopes--
 	return nil
 }
 
